@@ -209,7 +209,7 @@ theorem refused_after_rst (cfg : Cfg) (k : Kernel) (fd : Nat) (s : Socket) (t : 
 /-- Backlog: a SYN that reaches a listener creates a half-open child (and a SYN-ACK goes out)
     exactly when half-open children of that local address plus the accept queue are below the
     backlog; otherwise the SYN is dropped without any trace (the client retransmits). -/
-theorem syn_admitted_iff_room (cfg : Cfg) (k : Kernel) (lfd : Nat) (l r : SockAddr) (s : Seg) (ls : Socket) (li : Listen)
+theorem syn_accepted_iff_room (cfg : Cfg) (k : Kernel) (lfd : Nat) (l r : SockAddr) (s : Seg) (ls : Socket) (li : Listen)
     (hs : k.getSock lfd = some ls) (hl : ls.listen = some li) :
     (k.countChildren lfd l + li.ready.length ≥ li.backlog → k.acceptSyn cfg lfd l r s = k) ∧
     (k.countChildren lfd l + li.ready.length < li.backlog →
